@@ -53,7 +53,93 @@ def strategy(tier):
         return {"spec": spec, "state": rec, "protocol": draw(st.sampled_from((2, None, pickle.HIGHEST_PROTOCOL))), "more": more, "batch": batch,
                 "scalar_w": draw(st.sampled_from((None, None, 1.0, 2.0, "omitted")))}
 
-    return cases()
+    @st.composite
+    def default_cases(draw):
+        # trees that hold the library's own default objects (quantity=identity, the default selection of
+        # HistogramCut, value=Count()): a clone holds private copies of them and must react as the original does
+        ctor = draw(st.sampled_from(sorted(default_table())))
+        nums = st.sampled_from((0.0, 0.5, -1.0, 1.5, 2.0, -2.0, 3.0, float("nan"), float("inf")))
+        strs = st.sampled_from(("a", "b", "zz", ""))
+        kind = default_table()[ctor][1]
+        val = {"num": nums, "str": strs, "row": nums}[kind]
+        steps = []
+        for _ in range(draw(st.integers(1, 5))):
+            how = draw(st.sampled_from(("row", "numpy", "numpy-w", "numpy-sw")))
+            vals = draw(st.lists(val, min_size=1, max_size=4))
+            ws = [draw(st.sampled_from((1.0, 0.5, 2.0, 0.0))) for _ in vals]
+            steps.append([how, vals, ws])
+        return {"mode": "defaults", "ctor": ctor, "before": draw(st.lists(val, max_size=4)), "steps": steps,
+                "protocol": draw(st.sampled_from((2, None, pickle.HIGHEST_PROTOCOL)))}
+
+    return st.one_of(*([cases()] * 7), default_cases())
+
+
+def default_table():
+    """name -> (constructor relying on default arguments, what a datum is)"""
+    hg = lib()
+    import histogrammar.convenience as cv  # noqa: PLC0415
+    from histogrammar.defs import identity, unweighted  # noqa: PLC0415
+
+    return {
+        "HistogramCut(n,l,h,q)": (lambda: cv.HistogramCut(4, -2.0, 2.0, "x"), "row"),
+        "Select(unweighted, Bin(n,l,h,q))": (lambda: hg.Select(unweighted, hg.Bin(4, -2.0, 2.0, "x")), "row"),
+        "Label(a=HistogramCut, b=Count)": (lambda: hg.UntypedLabel(a=cv.HistogramCut(2, 0.0, 2.0, "x"), b=hg.Count()), "row"),
+        "Bin(n,l,h)": (lambda: hg.Bin(4, -2.0, 2.0), "num"),
+        "Bin(n,l,h,identity,Sum())": (lambda: hg.Bin(4, -2.0, 2.0, identity, hg.Sum()), "num"),
+        "Select(cut=Sum())": (lambda: hg.Select(cut=hg.Sum()), "num"),
+        "SparselyBin(w)": (lambda: hg.SparselyBin(1.0), "num"),
+        "Average()": (lambda: hg.Average(), "num"),
+        "Fraction(value=Deviate())": (lambda: hg.Fraction(value=hg.Deviate()), "num"),
+        "Stack(t)": (lambda: hg.Stack([0.0, 1.0]), "num"),
+        "Categorize()": (lambda: hg.Categorize(), "str"),
+        "Bag()": (lambda: hg.Bag(), "str"),
+    }
+
+
+def check_defaults(case):
+    make, kind = default_table()[case["ctor"]]
+    h = make()
+
+    def datum(v):
+        return {"x": v} if kind == "row" else v
+
+    def batch(vals):
+        if kind == "row":
+            return {"x": np.array(vals, dtype=np.float64)}
+        return np.array(vals, dtype=np.float64 if kind == "num" else object)
+
+    for v in case["before"]:
+        h.fill(datum(v))
+    d0 = doc(h)
+    clone = pickle.loads(pickle.dumps(h) if case["protocol"] is None else pickle.dumps(h, case["protocol"]))
+    d = norm.diff(d0, doc(clone), norm.BITEXACT)
+    require(not d, "clone-content-differs", lambda: f"{case['ctor']}: clone document differs: {norm.fmt(d)}")
+    require((clone == h) is True and (h == clone) is True, "clone-not-equal", f"{case['ctor']}: clone == h is not True in both orders")
+    done = 0
+    for n, (how, vals, ws) in enumerate(case["steps"]):
+        outcomes = []
+        for target in (h, clone):
+            try:
+                if how == "row":
+                    for v, w in zip(vals, ws):
+                        target.fill(datum(v), w)
+                elif how == "numpy":
+                    target.fill.numpy(batch(vals))
+                elif how == "numpy-w":
+                    target.fill.numpy(batch(vals), np.array(ws, dtype=np.float64))
+                else:
+                    target.fill.numpy(batch(vals), ws[0])
+                outcomes.append("filled")
+            except Exception as e:  # noqa: BLE001 - what is compared is how the two objects react, whatever that is
+                outcomes.append("raised " + type(e).__name__)
+        sig = {"ctor": case["ctor"].split("(")[0], "how": how}
+        require(outcomes[0] == outcomes[1], "continuation-reacts-differently", f"{case['ctor']}: step {n} ({how} fill of {vals!r}): the original {outcomes[0]}, its clone {outcomes[1]}", sig)
+        d = norm.diff(doc(h), doc(clone), norm.BITEXACT)
+        require(not d, "continuation-" + ("row" if how == "row" else "numpy"), lambda: f"{case['ctor']}: after step {n} ({how} fill of {vals!r}, {outcomes[0]}) clone differs: {norm.fmt(d)}", sig)  # noqa: B023
+        done += outcomes[0] == "filled"
+    d = norm.diff(doc(h + h), doc(clone + h), norm.BITEXACT)
+    require(not d, "clone-merge", lambda: f"{case['ctor']}: clone + h differs from h + h: {norm.fmt(d)}")
+    return {"nontrivial": done > 0 and doc(h)["entries"] > 0, "labels": ["mode:defaults", "ctor:" + case["ctor"]]}
 
 
 def doc(h):
@@ -62,6 +148,8 @@ def doc(h):
 
 def check(case):
     lib()
+    if case.get("mode") == "defaults":
+        return check_defaults(case)
     spec = case["spec"]
     h = states.realize(spec, case["state"])
     reloaded = bool(case["state"].get("reload"))
